@@ -722,7 +722,7 @@ func (e *evalEnv) call(x *ast.CallExpr) tv {
 			if !ok {
 				e.fail(x, "allocated() of a value without reference")
 			}
-			return tv{term: fmt.Sprintf("(and (> %s 0) (< %s %s))", r, r, e.st.Next), typ: tBool}
+			return tv{term: fmt.Sprintf("(and (not (= %s 0)) (< %s %s))", r, r, e.st.Next), typ: tBool}
 		case "ref":
 			v := e.value(e.eval(x.Args[0]))
 			r, ok := refOf(v)
